@@ -2,11 +2,11 @@
    Statements over Model/Pms.v (the choice as the direct recursion `select` over the capacity-sorted
    pattern list); proofs in Proofs/PmsProofs.v.
 
-   Partial, named so: the table-and-digitize formulation of the code (Model/Pms.v part (a),
-   `on_pattern_table`) is NOT proved equal to `select` in general; Check_C15.check_case evaluates both
-   inside Coq on every correspondence case and requires that they and the implementation agree. *)
+   The table-and-digitize formulation of the code (Model/Pms.v part (a), `on_pattern_table`: dict with last key
+   wins, sorted items, np.digitize) is proved equal to `select` for every rating list, fraction and load
+   (C15_table_is_select, proof in Proofs/PmsTable.v), so the theorems below are about what the code looks up. *)
 From Coq Require Import QArith Qround ZArith List Bool Lqa.
-From Feems Require Import Base.Num Model.Pms Proofs.PmsProofs.
+From Feems Require Import Base.Num Model.Pms Proofs.PmsProofs Proofs.PmsTable.
 Import ListNotations.
 Open Scope Q_scope.
 
@@ -93,3 +93,10 @@ Print Assumptions C15_minimal.
 Print Assumptions C15_monotone.
 Print Assumptions C15_consequence.
 Print Assumptions C15_equal_size.
+
+(* the look-up table the code builds and reads selects exactly what `select` selects: no hypothesis on the
+   ratings, the fraction or the load *)
+Theorem C15_table_is_select rs f x : (1 <= length rs)%nat ->
+  on_pattern_table rs f x = match select rs f x with Some e => snd e | None => [] end.
+Proof. exact (table_is_select rs f x). Qed.
+Print Assumptions C15_table_is_select.
